@@ -206,6 +206,12 @@ def main(argv):
         rp = json.load(open(a.replay, encoding="utf-8"))
         seed, tier, only_id = rp.get("seed", seed), rp.get("tier", tier), rp.get("id")
     cfg = props.PROPS[pid]
+    # two runs of the same property share gen/<pid>: serialise them
+    with Lock("run_" + pid):
+        return run_property(pid, cfg, tier, seed, only_id)
+
+
+def run_property(pid, cfg, tier, seed, only_id):
     t0 = time.time()
     violations = []      # dicts: key(s), what, replay object
     notes = []
